@@ -142,8 +142,9 @@ func main() {
 				}
 				trace = append(trace, fmt.Sprintf("Set(%s, base#%v fresh=%v, delta#%s)", us, b.rl.Number, b.fresh, d))
 				if err := c.Set(ctx, u, bundle); err != nil {
-					r.Event("set-error")
-					r.Violation(map[string]string{"kind": "set-error"}, fmt.Sprintf("Set(%s) failed: %v", us, err), map[string]any{"trace": trace})
+					// the property does not promise that every URL can be stored: a refused Set leaves the model unchanged
+					r.Event("set-refused")
+					trace = append(trace, fmt.Sprintf("  -> Set refused: %v", err))
 					continue
 				}
 				r.Event("set")
